@@ -78,6 +78,7 @@ class Ctx(object):
     def __init__(self, rt):
         self.rt = rt
         self.executed = 0
+        self.bad_resume = None
         self.ctr = itertools.count()
 
 
@@ -123,10 +124,12 @@ def build(ctx):
                     got = yield fs[0]
                 elif op[1] == "list":
                     got = yield fs
-                    assert isinstance(got, list) and len(got) == len(fs)
+                    if not (isinstance(got, list) and len(got) == len(fs)):
+                        ctx.bad_resume = ("list", repr(got)[:60])
                 else:
                     got = yield tuple(fs)
-                    assert isinstance(got, tuple) and len(got) == len(fs)
+                    if not (isinstance(got, tuple) and len(got) == len(fs)):
+                        ctx.bad_resume = ("tuple", repr(got)[:60])
             elif op[0] == "value":
                 yield Value(op[1])
             else:
@@ -222,6 +225,9 @@ def check_body(ops, res, c):
                 except StopIteration:
                     viol.append(("advance-before-previous-task-computed-raised-StopIteration", {"attempt": attempt + 1}))
                     break
+                except BaseException as e:
+                    viol.append(("advance-before-previous-task-computed-did-not-raise", {"attempt": attempt + 1, "raised_instead": exc_desc(e)}))
+                    break
             if viol:
                 break
         try:
@@ -231,6 +237,8 @@ def check_body(ops, res, c):
             break
     if guard_checked:
         c["guard_checks"] = c.get("guard_checks", 0) + 1
+    if ctx.bad_resume is not None and not viol:
+        viol.append(("generator-body-resumed-with-wrong-value", {"awaited": ctx.bad_resume[0], "received": ctx.bad_resume[1]}))
     # exhaustion
     if not viol and exhausted:
         for k in range(3):
